@@ -1,6 +1,7 @@
 """C03 — the RVB cluster update preserves the thermal distribution (partial by nature)."""
 from checks import big_scale
 from checks import extra_c03kernel
+from checks import extra_c03limit
 from checks import kern
 from checks import pure_fns
 from checks import api_cov
@@ -137,6 +138,7 @@ def main(ck):
         kern.run(ck, "rvb")   # exact one-step kernels of the real code on tiny systems: pi K = pi
     api_cov.run(ck, "c03")   # otherwise unexercised public API, model-free oracles of this property
     scale_inv.run(ck, "c03")   # power-of-two unit change: identical trajectory, energies exactly scaled (model-free twin oracle)
+    extra_c03limit.run(ck)   # capstone + limit L -> infinity for the time step WITH the RVB update
     extra_c03kernel.run(ck)   # extract-flip lemma; RVB kernel reversible for the SSE measure; whole Ising timestep WITH the RVB update invariant
     big_scale.run(ck, "densegraph", tags=["C18"])   # large-scale regime (>65536 bonds/ops/slots, release semantics): model-free oracles of the property statements
     return ck.finish(RULE)
